@@ -2,6 +2,7 @@ package eventbus
 
 import (
 	"context"
+	"reflect"
 	"sync"
 )
 
@@ -298,4 +299,53 @@ func harnessC04SharedOptionValue() {
 		vAssert(HandlerCount[evA](bus) == 0, "once-counted-until-fired-only")
 	}
 	vCover("shared")
+}
+
+//verif:entry property=C04 tier=both bounds="a synchronous Once handler between m<=1+1 ordinary handlers on a bus with an after-publish hook (plain or context-aware) that queries HandlerCount and may panic (the publisher recovers); two publishes; the fired handler is no longer counted once its publish has run its handlers - neither by the hook, nor after a publish that ended in the hook's panic - and never runs again" cover="hook-saw-count,hook-panicked"
+func harnessC04AfterHookView() {
+	var bus *EventBus
+	seen := -1
+	hookPanics := vBool()
+	ctxHook := vBool()
+	view := func() {
+		seen = HandlerCount[evA](bus)
+		if hookPanics {
+			panic("after-hook failure")
+		}
+	}
+	if ctxHook {
+		bus = New(WithAfterPublishContext(func(ctx context.Context, _ reflect.Type, _ any) { view() }))
+	} else {
+		bus = New(WithAfterPublish(func(_ reflect.Type, _ any) { view() }))
+	}
+	ordinary := 0
+	if vBool() {
+		Subscribe(bus, c01HA[1])
+		ordinary++
+	}
+	got := 0
+	vAssert(Subscribe(bus, func(e evA) { got++ }, Once()) == nil, "subscribe-ok")
+	if vBool() {
+		Subscribe(bus, c01HA[2])
+		ordinary++
+	}
+	for p := 0; p < 2; p++ {
+		seen = -1
+		func() {
+			defer func() {
+				if r := recover(); r != nil {
+					vCover("hook-panicked")
+				}
+			}()
+			if vBool() {
+				Publish[any](bus, evA{N: p})
+			} else {
+				Publish(bus, evA{N: p})
+			}
+		}()
+		vAssert(got == 1, "once-exactly-once-when-eligible")
+		vAssert(seen == ordinary, "once-counted-until-fired-only")
+		vAssert(HandlerCount[evA](bus) == ordinary, "once-counted-until-fired-only")
+		vCover("hook-saw-count")
+	}
 }
